@@ -874,3 +874,44 @@ theorem exTable_ok : exTable.Ok := by
   · intro n hn; simp only [exTable, Option.some.injEq] at hn; subst hn; exact ⟨by omega, by decide⟩
 
 end Geometry
+
+namespace Geometry
+
+/-! ### `rfind('/')` on arbitrary paths -/
+
+theorem takeWhile_all {γ : Type} (p : γ → Bool) : ∀ (l : List γ), (∀ x ∈ l, p x = true) → l.takeWhile p = l
+  | [], _ => rfl
+  | x :: xs, h => by
+    rw [List.takeWhile_cons, if_pos (h x (List.mem_cons_self ..)),
+      takeWhile_all p xs (fun y hy => h y (List.mem_cons_of_mem _ hy))]
+
+theorem length_takeWhile_le' {γ : Type} (p : γ → Bool) : ∀ (l : List γ), (l.takeWhile p).length ≤ l.length
+  | [] => Nat.le_refl _
+  | x :: xs => by
+    rw [List.takeWhile_cons]
+    split
+    · simp only [List.length_cons]; have := length_takeWhile_le' p xs; omega
+    · simp
+
+theorem rfindSlash_noSlash (base : Bytes) (hb : ∀ b ∈ base, b ≠ 47) : rfindSlash base = none := by
+  unfold rfindSlash
+  have : base.reverse.takeWhile (· ≠ 47) = base.reverse :=
+    takeWhile_all _ _ (fun b hb' => by simpa using hb b (List.mem_reverse.mp hb'))
+  rw [this, List.length_reverse]
+  simp
+
+theorem rfindSlash_xl (rest : Bytes) : ∃ i, rfindSlash (120 :: 108 :: 47 :: rest) = some i := by
+  unfold rfindSlash
+  have hrev : (120 :: 108 :: 47 :: rest : Bytes).reverse = rest.reverse ++ ([47, 108, 120] : Bytes) := by simp
+  have hlen : ((120 :: 108 :: 47 :: rest : Bytes).reverse.takeWhile (· ≠ 47)).length ≤ rest.length := by
+    rw [hrev, List.takeWhile_append]
+    split
+    · have h1 : ([47, 108, 120] : Bytes).takeWhile (· ≠ 47) = [] := by decide
+      rw [h1]; simp
+    · have := length_takeWhile_le' (fun b : UInt8 => decide (b ≠ 47)) rest.reverse
+      simpa using this
+  simp only [List.length_cons]
+  rw [if_neg (by omega)]
+  exact ⟨_, rfl⟩
+
+end Geometry
